@@ -1,7 +1,7 @@
 """Unit `block`: format_block / format_stmt / format_last_stmt / check_stmt_requires_semicolon.
 C08 (ignored statements verbatim, with their semicolon), C09 (out-of-range statements untouched),
 C01.4 (statement separator kept where the next statement starts with `(`), C02 (statement order/kind)."""
-from gen import Unit, Fn, Item, Raw, RawFile, Hole, After, Before, Loop
+from gen import Unit, Fn, Item, Raw, RawFile, Hole, After, Before, Loop, Between
 from common import *
 
 BLK = "src/formatters/block.rs"
@@ -119,49 +119,18 @@ impl UpdateTrivia for LastStmt {
 }
 """
 
-SEMI_HOLE_1 = """let trivia = trivia_util::get_stmt_trailing_trivia(stmt.to_owned())
-                        .1
-                        .iter()
-                        .rev()
-                        .skip(1) // Remove the newline at the end
-                        .rev()
-                        .cloned()
-                        .chain(
-                            semi.leading_trivia()
-                                .chain(semi.trailing_trivia())
-                                .filter(|token| trivia_util::trivia_is_comment(token))
-                                .flat_map(|x| {
-                                    // Prepend a single space beforehand
-                                    // The comment itself is formatted like any other (trailing whitespace, line endings)
-                                    vec![
-                                        Token::new(TokenType::spaces(1)),
-                                        format_token(&ctx, x, FormatTokenType::Token, shape).0,
-                                    ]
-                                }),
-                        )
-                        .chain(std::iter::once(create_newline_trivia(&ctx)))
-                        .collect();"""
-SEMI_HOLE_2 = """let trivia = last_stmt
-                        .trailing_trivia()
-                        .iter()
-                        .rev()
-                        .skip(1) // Remove the newline at the end
-                        .rev()
-                        .cloned()
-                        .chain(
-                            semi.leading_trivia()
-                                .chain(semi.trailing_trivia())
-                                .filter(|token| trivia_util::trivia_is_comment(token))
-                                .flat_map(|x| {
-                                    // Prepend a single space beforehand
-                                    // The comment itself is formatted like any other (trailing whitespace, line endings)
-                                    vec![
-                                        Token::new(TokenType::spaces(1)),
-                                        format_token(&ctx, x, FormatTokenType::Token, shape).0,
-                                    ]
-                                }),
-                        )
-                        .chain(std::iter::once(create_newline_trivia(&ctx)))
+SEMI_COMMENTS = """let semicolon_comments: Vec<Token> = semi
+                        .leading_trivia()
+                        .chain(semi.trailing_trivia())
+                        .filter(|token| trivia_util::trivia_is_comment(token))
+                        .flat_map(|x| {
+                            // Prepend a single space beforehand
+                            // The comment itself is formatted like any other (trailing whitespace, line endings)
+                            vec![
+                                Token::new(TokenType::spaces(1)),
+                                format_token(&ctx, x, FormatTokenType::Token, shape).0,
+                            ]
+                        })
                         .collect();"""
 
 BLOCK_INV = """
@@ -206,6 +175,7 @@ def items():
            contract="ensures r == toggle(*self, node.key()),"),
         Raw(SPEC_STMT + FM_STMT_SPECS + STMT_TRAITS),
         Fn(GEN, "format_symbol", mode="stub"),
+        Fn(TU, "join_trailing_trivia", mode="stub", proved_in="tok"),
         Fn(TU, "get_stmt_trailing_trivia", mode="stub",
            contract="ensures stmt_sem(r.0) == stmt_sem(stmt), ends_with_expression(r.0) == ends_with_expression(stmt),"),
         Fn(STM, "format_stmt_block", mode="stub", module="formatters::stmt::stmt_block",
@@ -261,8 +231,9 @@ pub open spec fn simple_stmt_kind(s: Stmt) -> bool {
         block_last(block) is Some ==> last_ok(toggle(ctx_end(*ctx, block_stmts(block)), NodeKey::Last(block_last(block)->Some_0.0)), block_last(block)->Some_0, block_last(&r)->Some_0), //# C08.block_last
 """, edits=[
             Hole("block.stmts_with_semicolon().peekable()", "verif::peekable(block.stmts_with_semicolon())", kind="wrapper", why="Iterator::peekable through a prelude wrapper carrying the ghost sequence"),
-            Hole(SEMI_HOLE_1, "let trivia: Vec<Token> = verif::hole_vec_token();", why="iterator-adapter chain with closures (comment transplant, see C03)"),
-            Hole(SEMI_HOLE_2, "let trivia: Vec<Token> = verif::hole_vec_token();", why="iterator-adapter chain with closures (comment transplant, see C03)"),
+            Between("let trivia: Vec<Token> = trivia_util::get_stmt_trailing_trivia(stmt.to_owned())", ".collect();", "let trivia: Vec<Token> = verif::hole_vec_token();", why="iterator-adapter chain: the statement's trailing trivia without its final newline (comment transplant, see C03)"),
+            Between("let trivia: Vec<Token> = last_stmt\n                        .trailing_trivia()", ".collect();", "let trivia: Vec<Token> = verif::hole_vec_token();", why="iterator-adapter chain: the last statement's trailing trivia without its final newline (comment transplant, see C03)"),
+            Hole(SEMI_COMMENTS, "let semicolon_comments: Vec<Token> = verif::hole_vec_token();", count=2, why="iterator-adapter chain with closures: the comments of the removed semicolon, formatted (comment transplant, see C03; the two lists are joined by join_trailing_trivia, verified in unit tok)"),
             After("let mut stmt_iterator = verif::peekable(block.stmts_with_semicolon());", "let ghost ctx0 = ctx; let ghost mut k: int = 0;"),
             Loop("while let Some((stmt, semi)) = stmt_iterator.next()", BLOCK_INV, step="proof { k = k + 1; }"),
         ]),
